@@ -22,6 +22,7 @@
 #include "filesettings.h"
 #include "path.h"
 #include "utils.h"
+#include "verif_trace.h"
 
 #include <array>
 #include <cstring>
@@ -80,8 +81,10 @@ std::string AnalyzerInformation::getFilesTxt(const std::list<std::string> &sourc
 void AnalyzerInformation::close()
 {
     if (mOutputStream.is_open()) {
+        VERIF_EVT("AiClose", "");
         mOutputStream << "</analyzerinfo>\n";
         mOutputStream.close();
+        VERIF_EVT("AiClosed", "");
     }
 }
 
@@ -190,11 +193,18 @@ bool AnalyzerInformation::analyzeFile(const std::string &buildDir, const std::st
             std::cout << "no cached result '" << analyzerInfoFile << "' for '" << sourcefile << "' found" << std::endl;
     }
 
+    VERIF_EVT("AiOpen", verif::kv("afile", analyzerInfoFile) + verif::kv("src", sourcefile) + verif::kv("hash", hash));
     mOutputStream.open(analyzerInfoFile);
     if (!mOutputStream.is_open())
         throw std::runtime_error("failed to open '" + analyzerInfoFile + "'");
     mOutputStream << "<?xml version=\"1.0\"?>\n";
     mOutputStream << "<analyzerinfo hash=\"" << hash << "\">\n";
+#ifdef DANMAR_CPPCHECK_VERIF
+    if (VERIF_ACTIVE()) {
+        mOutputStream.flush();
+        VERIF_EVT("AiOpened", verif::kv("afile", analyzerInfoFile));
+    }
+#endif
 
     return true;
 }
@@ -203,12 +213,24 @@ void AnalyzerInformation::reportErr(const ErrorMessage &msg)
 {
     if (mOutputStream.is_open())
         mOutputStream << msg.toXML() << '\n';
+#ifdef DANMAR_CPPCHECK_VERIF
+    if (VERIF_ACTIVE() && mOutputStream.is_open()) {
+        mOutputStream.flush();
+        VERIF_EVT("AiWrite", verif::kv("kind", "finding") + verif::msgKey(msg));
+    }
+#endif
 }
 
 void AnalyzerInformation::setFileInfo(const std::string &check, const std::string &fileInfo)
 {
     if (mOutputStream.is_open() && !fileInfo.empty())
         mOutputStream << "  <FileInfo check=\"" << check << "\">\n" << fileInfo << "  </FileInfo>\n";
+#ifdef DANMAR_CPPCHECK_VERIF
+    if (VERIF_ACTIVE() && mOutputStream.is_open() && !fileInfo.empty()) {
+        mOutputStream.flush();
+        VERIF_EVT("AiWrite", verif::kv("kind", "fileinfo") + verif::kv("check", check));
+    }
+#endif
 }
 
 // TODO: report detailed errors?
@@ -311,6 +333,7 @@ void AnalyzerInformation::reopen(const std::string &buildDir, const std::string 
     std::string content = iss.str();
     content.resize(content.find("</analyzerinfo>"));
 
+    VERIF_EVT("AiReopen", verif::kv("afile", analyzerInfoFile) + verif::kb("hasEnd", iss.str().find("</analyzerinfo>") != std::string::npos));
     mOutputStream.open(analyzerInfoFile, std::ios::trunc);
     mOutputStream << content;
 }
